@@ -137,6 +137,61 @@ type Result struct {
 	TriggerLag time.Duration
 }
 
+// hostRecursion is the host side of Shape.Kind "host-recursion".
+type hostRecursion struct {
+	at        int // the entry at which the context is made done (0 = never: control group)
+	fire      func()
+	entered   int
+	afterDone int  // entries with a context that was already done
+	runaway   bool // the guest kept calling although its context was done
+}
+
+// afterDoneBound: the context becomes done inside the host function; the call it then makes must
+// not run the guest at all, so no further entry is expected. A small allowance anyway.
+const afterDoneBound = 2
+
+func (h *hostRecursion) enter(ctx context.Context, mod api.Module) {
+	h.entered++
+	if ctx.Err() != nil {
+		h.afterDone++
+		if h.afterDone > afterDoneBound {
+			h.runaway = true
+			return // end the experiment instead of exhausting the Go stack
+		}
+	}
+	if h.entered == h.at && h.fire != nil {
+		h.fire()
+	}
+	if _, err := mod.ExportedFunction("cycle").Call(ctx); err != nil {
+		panic(err)
+	}
+}
+
+// expiring is a context whose deadline is reached when expire is called (Done closed, Err =
+// context.DeadlineExceeded): a deadline context without the wall clock.
+type expiring struct {
+	context.Context
+	mu   sync.Mutex
+	done chan struct{}
+	err  error
+}
+
+func (d *expiring) Done() <-chan struct{} { return d.done }
+func (d *expiring) Err() error {
+	d.mu.Lock()
+	defer d.mu.Unlock()
+	return d.err
+}
+func (d *expiring) Deadline() (time.Time, bool) { return time.Now().Add(time.Hour), true }
+func (d *expiring) expire() {
+	d.mu.Lock()
+	defer d.mu.Unlock()
+	if d.err == nil {
+		d.err = context.DeadlineExceeded
+		close(d.done)
+	}
+}
+
 // ---- noise ----
 
 var (
@@ -354,6 +409,7 @@ func runCase(c *Case) (res Result) {
 	if ov.Twin != "" {
 		ev.need = 2
 	}
+	hr := &hostRecursion{at: c.Shape.TriggerDepth}
 	_, err := rt.NewHostModuleBuilder("env").
 		NewFunctionBuilder().WithFunc(func(ctx context.Context) { ev.heartbeat() }).Export("hb").
 		NewFunctionBuilder().WithFunc(func(ctx context.Context) {}).Export("nop").
@@ -367,6 +423,7 @@ func runCase(c *Case) (res Result) {
 		}
 		return uint32(r[0])
 	}).Export("reenter").
+		NewFunctionBuilder().WithFunc(func(ctx context.Context, mod api.Module) { hr.enter(ctx, mod) }).Export("recur").
 		Instantiate(bg)
 	if err != nil {
 		res.Msg = "harness: host module: " + err.Error()
@@ -438,6 +495,20 @@ func runCase(c *Case) (res Result) {
 		}
 	}
 
+	selfTrigger := s.Kind == "host-recursion" && !control
+	var selfFired atomic.Int64
+	if selfTrigger {
+		// the host function of the cycle makes the context done at the drawn depth
+		switch c.Cause {
+		case "timeout":
+			ex := &expiring{Context: bg, done: make(chan struct{})}
+			ctx = ex
+			hr.fire = func() { selfFired.Store(time.Now().UnixNano()); ex.expire() }
+		default:
+			hr.fire = func() { selfFired.Store(time.Now().UnixNano()); cancel() }
+		}
+	}
+
 	// the trigger: armed by the heartbeat (and, with overlapping calls, once the terminating ones
 	// have returned), fired after the delay
 	armed := make(chan struct{})
@@ -446,7 +517,7 @@ func runCase(c *Case) (res Result) {
 	var firedAt atomic.Int64
 	go func() {
 		defer close(triggerDone)
-		if c.Cause != "cancel" && !c.closeCause() {
+		if (c.Cause != "cancel" && !c.closeCause()) || selfTrigger {
 			return
 		}
 		select {
@@ -472,7 +543,7 @@ func runCase(c *Case) (res Result) {
 		}
 	}()
 
-	if c.Cause == "timeout" {
+	if c.Cause == "timeout" && !selfTrigger {
 		deadline = time.Now().Add(delay)
 		var cancelT context.CancelFunc
 		if c.Flavor == "cause" {
@@ -641,10 +712,18 @@ func runCase(c *Case) (res Result) {
 
 	// triggered cases
 	trig := firedAt.Load()
-	switch c.Cause {
-	case "timeout":
+	if selfTrigger {
+		if hr.runaway {
+			res.Msg = fmt.Sprintf("the guest kept running although the context of its calls was done: the host function closing the cycle was entered %d more times with a context that was already done (each time through a new api.Function.Call with that context)", hr.afterDone)
+			return
+		}
+		trig = selfFired.Load()
+	}
+	switch {
+	case selfTrigger:
+	case c.Cause == "timeout":
 		trig = deadline.UnixNano()
-	case "done-cancel", "done-deadline":
+	case c.Cause == "done-cancel" || c.Cause == "done-deadline":
 		trig = 0
 	}
 	if trig != 0 && returned.UnixNano() > trig {
@@ -654,7 +733,7 @@ func runCase(c *Case) (res Result) {
 			return
 		}
 	}
-	if c.Cause == "timeout" && res.Heartbeat && ev.hbTime.Load() > deadline.UnixNano() {
+	if c.Cause == "timeout" && !selfTrigger && res.Heartbeat && ev.hbTime.Load() > deadline.UnixNano() {
 		res.Heartbeat = false // the deadline had passed before the guest ran
 	}
 	want := c.wantCode()
@@ -737,6 +816,12 @@ var delaysUs = []int{0, 100, 1000, 10000, 50000}
 
 func genShape(t *rapid.T) Shape {
 	s := Shape{}
+	if rapid.IntRange(0, 11).Draw(t, "host-recursion") == 0 {
+		s.Kind = "host-recursion"
+		s.TriggerDepth = rapid.SampledFrom([]int{1, 2, 3, 10, 50, 200}).Draw(t, "trigger-depth")
+		s.Entry = rapid.SampledFrom([]string{"export", "export", "callback"}).Draw(t, "entry")
+		return s
+	}
 	if rapid.IntRange(0, 9).Draw(t, "kind") < 6 {
 		s.Kind = "loop"
 		s.Back = rapid.SampledFrom([]string{"br", "br_if", "br_table"}).Draw(t, "back")
@@ -801,6 +886,11 @@ func genCase(t *rapid.T) *Case {
 	if c.Shape.Entry == "start" || c.Shape.Entry == "_start" {
 		causes = []string{"cancel", "cancel", "timeout", "timeout", "done-cancel", "done-deadline"} // no module handle to close
 	}
+	if c.Shape.Kind == "host-recursion" {
+		// the context becomes done inside the host function that closes the cycle; closing the
+		// module instead would not do: such a cycle passes no point at which the closed flag is read
+		causes = []string{"cancel", "cancel", "timeout", "timeout", "done-cancel", "done-deadline"}
+	}
 	c.Cause = rapid.SampledFrom(causes).Draw(t, "cause")
 	if c.Cause == "cancel" || c.Cause == "timeout" {
 		c.Flavor = rapid.SampledFrom([]string{"", "", "cause", "child"}).Draw(t, "flavor")
@@ -816,7 +906,7 @@ func genCase(t *rapid.T) *Case {
 	if !startEntry && rapid.IntRange(0, 1).Draw(t, "with-noise") == 0 {
 		c.Noise = rapid.SliceOfN(rapid.SampledFrom([]string{"dup-name", "dup-name", "failing-start", "cancelled-start", "other", "other-closed", "fs-close-error"}), 1, 3).Draw(t, "noise")
 	}
-	if (c.Cause == "cancel" || c.closeCause()) && !startEntry && rapid.IntRange(0, 2).Draw(t, "overlap") == 0 {
+	if (c.Cause == "cancel" || c.closeCause()) && !startEntry && c.Shape.Kind != "host-recursion" && rapid.IntRange(0, 2).Draw(t, "overlap") == 0 {
 		// other calls on the same instance overlap with the non-terminating one
 		rel := rapid.SampledFrom([]string{"same", "same", "value", "child"})
 		ov := &Overlap{
@@ -844,7 +934,9 @@ func labelsOf(c *Case, r Result) []string {
 	if c.Cause != "none" {
 		l = append(l, fmt.Sprintf("delay_us:%d", c.DelayUs), "class:"+s.class())
 	}
-	if s.Kind == "loop" {
+	if s.Kind == "host-recursion" {
+		l = append(l, "host-recursion", fmt.Sprintf("host-recursion:context-done-at-depth:%d", s.TriggerDepth))
+	} else if s.Kind == "loop" {
 		l = append(l, "loop:back:"+s.Back, fmt.Sprintf("loop:blocktype:%d", s.BT), fmt.Sprintf("loop:branch-depth:%d", s.Depth))
 		if s.Nest != "" {
 			l = append(l, "loop:nest:"+s.Nest)
